@@ -4,6 +4,9 @@ import (
 	"context"
 	"net/http"
 
+	"github.com/ipfs/go-cid"
+	"github.com/multiformats/go-multihash"
+
 	cidlink "github.com/ipld/go-ipld-prime/linking/cid"
 	headschema "github.com/ipni/go-libipni/dagsync/ipnisync/head"
 	"github.com/libp2p/go-libp2p/core/peer"
@@ -43,5 +46,41 @@ func VerifC03_NewSyncerKeepsPeerID() {
 		verif_Assert(gerr == nil && got == root, "the expected publisher's head is accepted")
 	} else {
 		verif_Assert(gerr != nil, "a head signed by another identity is rejected over plain HTTP too")
+	}
+}
+
+// C03 (the signature covers exactly the head CID): the same multihash spelled
+// as CIDv0, CIDv1/dag-pb or CIDv1/raw are different CIDs. A head genuinely
+// signed for one spelling must not validate with another spelling in its place.
+func VerifC03_HeadCidSpelling() {
+	k := c03newKey()
+	mh, err := multihash.Sum([]byte("some advertisement"), multihash.SHA2_256, -1)
+	verif_Assume(err == nil)
+	spell := func(i int) cid.Cid {
+		switch i {
+		case 0:
+			return cid.NewCidV0(mh)
+		case 1:
+			return cid.NewCidV1(cid.DagProtobuf, mh)
+		default:
+			return cid.NewCidV1(cid.Raw, mh)
+		}
+	}
+	signed := spell(verif_Choose("signedSpelling", 0, 2))
+	served := spell(verif_Choose("servedSpelling", 0, 2))
+	topic := []string{"", "/indexer/ingest/mainnet"}[verif_Choose("topic", 0, 1)]
+	h, err := headschema.NewSignedHead(signed, topic, k.priv)
+	verif_Assume(err == nil)
+	h.Head = cidlink.Link{Cid: served}
+	wire, err := h.Encode()
+	verif_Assume(err == nil)
+	rt := &vRT{fn: func(req *http.Request) (*http.Response, error) { return vResp(200, wire), nil }}
+	s := &Syncer{client: &http.Client{Transport: rt}, rootURL: vURL("http://pub.example/ipni/v1/ad"), sync: &Sync{}, peerInfo: peer.AddrInfo{ID: k.id}}
+	got, gerr := s.GetHead(context.Background())
+	verif_Reach("answered")
+	if signed == served {
+		verif_Assert(gerr == nil && got == signed, "the head the publisher signed is accepted")
+	} else {
+		verif_Assert(gerr != nil && got == cid.Undef, "a head whose CID is another spelling of the signed multihash is rejected")
 	}
 }
